@@ -631,7 +631,7 @@ Section RawOps.
   Definition ShrinkEvs (t t' : table T) (evs : list (event T)) : Prop :=
     (t' = t /\ evs = []) \/
     (t' = new_table B T /\ FreeOld B T tsize talign t evs) \/
-    (exists len al off fevs,
+    (mask t' <> 0 /\ exists len al off fevs,
        layout_for B tsize talign (nb T t') = Some (len, al, off) /\ ValidLayout len al /\
        evs = EvAlloc len al :: fevs /\ FreeOld B T tsize talign t fevs).
 
@@ -743,7 +743,7 @@ Section RawOps.
           split; [congruence|]. split; [unfold zn in *; lia|]. split; [lia|].
           split; [intros (_ & C); unfold ms in Hnz; lia|].
           split; [intros C; unfold zn in *; lia|].
-          right; right. exists len, al, off, evs2. repeat (split; [assumption || reflexivity|]). exact Hfr.
+          right; right. split; [exact (proj1 HAn)|]. exists len, al, off, evs2. repeat (split; [assumption || reflexivity|]). exact Hfr.
         * exfalso. cbn [fwc_post] in Hpost. destruct evs; [|contradiction].
           destruct tr; try contradiction; destruct Hpost as (C & _); discriminate C.
         * destruct er; cbn [fwc_post shrink_post] in *; try contradiction.
@@ -764,7 +764,7 @@ Section RawOps.
                 split; [unfold zn in *; lia|]. split; [lia|].
                 split; [intros (C & _); contradiction|].
                 split; [intros C; unfold zn in *; lia|].
-                right; right. exists len, al, off, fevs. repeat (split; [assumption || reflexivity|]). exact Hfr.
+                right; right. split; [exact (proj1 HAn)|]. exists len, al, off, fevs. repeat (split; [assumption || reflexivity|]). exact Hfr.
           -- exfalso. destruct H as (_ & _ & _ & C & _). discriminate C.
           -- exfalso. destruct H as (_ & _ & _ & C & _). discriminate C.
         * destruct er; cbn [resize_post shrink_post] in *; try contradiction.
@@ -885,7 +885,7 @@ Section RawOps.
       split; [exact Hs|]. split; [exact HA'|]. split; [exact Hp|]. split; [exact Hit|].
       assert (Hfree : forall fevs e, FreeOld B T tsize talign t fevs -> ~ In (EvDrop e) fevs).
       { intros fevs e [(_ & ->) | (_ & l0 & a0 & o0 & _ & -> & _)]; [intros []|intros [C|[]]; discriminate C]. }
-      intros e. destruct Hev as [(_ & ->) | [(_ & Hfr) | (len & al & off & fevs & _ & _ & -> & Hfr)]].
+      intros e. destruct Hev as [(_ & ->) | [(_ & Hfr) | (_ & len & al & off & fevs & _ & _ & -> & Hfr)]].
       + intros [].
       + exact (Hfree evs e Hfr).
       + intros [C|C]; [discriminate C|exact (Hfree fevs e Hfr C)].
